@@ -182,7 +182,9 @@ CHECKS['C09'] = (
     'real groups for every sampled (basis, version, selection) and for generated directories; mentioned-key sets of notes. On the real outputs: partition, '
     'group information = component data in order, every key and element group mentioned, no key of unselected elements, library citation block, JSON '
     'parses back, and every stored field value of every entry of REFERENCES.json present in its bib / ris / endnote rendering (exhaustive). '
-    'Partial: the renderers themselves (string formatting, textwrap) are validated, not modelled.',
+    'The three single-entry renderers are modelled (bib, ris, endnote): bib_/ris_/endnote_renders_every_field — the key and every stored value (each author, editor, title, …, any further field) is a substring of the rendering, '
+    'for every entry with list-valued authors/editors; model text = converter text byte for byte on the whole database (both field orders) and on mutated entries; isSub_iff (the notes scan is the substring relation). '
+    'Partial: the txt renderer (textwrap) and the table assembly of convert_references are validated, not modelled.',
     BASE_NOTE + 'textwrap.', '6/C09')
 
 CHECKS['C17'] = (
